@@ -392,16 +392,26 @@ pub fn check_c17(cx: &C17Ctx, out: &mut Outcome) {
                     // it (the endpoint stops processing while it cannot write, e.g. an acknowledgement it owes): only DATA the
                     // application had already been handed before the reset was provably processed before it
                     if late < need && from_t > 0 {
-                        let seen_bytes: usize = app.map(|a| a.key).map(|k| cx.events.iter().filter(|x| x.side == e && x.key == k && x.step <= from_t).filter_map(|x| if let Api::RecvData { len, .. } = &x.api { Some(*len) } else { None }).sum()).unwrap_or(0);
+                        let key = app.map(|a| a.key);
+                        let seen_bytes: usize = key.map(|k| cx.events.iter().filter(|x| x.side == e && x.key == k && x.step <= from_t).filter_map(|x| if let Api::RecvData { len, .. } = &x.api { Some(*len) } else { None }).sum()).unwrap_or(0);
+                        let seen_head = key.map(|k| cx.events.iter().any(|x| x.side == e && x.key == k && x.step <= from_t && matches!(&x.api, Api::RecvHead { kind, .. } if *kind != "push-request"))).unwrap_or(false);
+                        let early: Vec<&crate::tapx::TFrame> = cx.tap.frames.iter().filter(|f| f.from != e && f.raw.stream == sid && f.t_d.map(|d| d < from_t).unwrap_or(false)).collect();
+                        // the last of those frames that was provably processed before the reset; everything behind it may be late
+                        let mut proven: Option<usize> = None;
                         let mut acc = 0usize;
-                        for f in cx.tap.frames.iter().filter(|f| f.from != e && f.raw.stream == sid && f.t_d.map(|d| d < from_t).unwrap_or(false)) {
-                            if let Ok(Frame::Data { data, .. }) = &f.frame {
-                                acc += data.len();
-                                if acc > seen_bytes {
-                                    late += 1;
+                        for (ix, f) in early.iter().enumerate() {
+                            match &f.frame {
+                                Ok(Frame::Data { data, .. }) => {
+                                    acc += data.len();
+                                    if !data.is_empty() && acc <= seen_bytes {
+                                        proven = Some(ix);
+                                    }
                                 }
+                                Ok(Frame::Headers { .. }) if seen_head && proven.is_none() => proven = Some(ix),
+                                _ => {}
                             }
                         }
+                        late += early.len() - proven.map(|x| x + 1).unwrap_or(0);
                     }
                     if late < need {
                         out.fail(
